@@ -17,7 +17,7 @@ use crate::memory_accessor::{ensure_ram_fn, MemoryAccessor};
 use codespan_reporting::diagnostic::Diagnostic;
 use crossbeam_channel::Select;
 use itertools::Itertools;
-use mos_core::codegen::{CodegenContext, ProgramCounter, SymbolIndex};
+use mos_core::codegen::{CodegenContext, Evaluator, ProgramCounter, SymbolIndex};
 use mos_core::errors::Diagnostics;
 use mos_core::parser::parse_expression;
 use serde::de::DeserializeOwned;
@@ -602,7 +602,12 @@ impl EvaluateRequestHandler {
             codegen.symbols_mut().ensure_cpu_symbols(registers, flags);
             if let Some(scope) = current_scope(&state, &codegen)? {
                 let expression = parse_expression(expr)?;
-                let evaluator = codegen.get_evaluator_for_scope(scope);
+                // '*' is the program counter the machine is stopped at (not the one assembly ended with)
+                let pc = match state {
+                    MachineRunningState::Stopped(pc) => Some(pc),
+                    _ => None,
+                };
+                let evaluator = Evaluator::new(scope, codegen.symbols(), codegen.functions(), pc);
                 let result = match evaluator.evaluate_expression(&expression, true) {
                     Ok(Some(val)) => val.to_string(),
                     Ok(None) => {
